@@ -10,6 +10,7 @@ import (
 	"crypto/sha256"
 	"flag"
 	"fmt"
+	"io"
 	"os"
 	"path/filepath"
 	"sort"
@@ -23,6 +24,7 @@ import (
 	"github.com/codenotary/immudb/pkg/database"
 	"github.com/codenotary/immudb/pkg/server"
 	"github.com/codenotary/immudb/pkg/server/servertest"
+	"github.com/codenotary/immudb/pkg/stream"
 	"google.golang.org/grpc"
 	"google.golang.org/protobuf/proto"
 
@@ -55,8 +57,8 @@ func (m *memState) SetState(db string, state *schema.ImmutableState) error {
 	m.st = proto.Clone(state).(*schema.ImmutableState)
 	return nil
 }
-func (m *memState) CacheLock() error          { m.mu.Lock(); return nil }
-func (m *memState) CacheUnlock() error        { m.mu.Unlock(); return nil }
+func (m *memState) CacheLock() error         { m.mu.Lock(); return nil }
+func (m *memState) CacheUnlock() error       { m.mu.Unlock(); return nil }
 func (m *memState) SetServerIdentity(string) {}
 
 // tamper sits between the client and the server
@@ -66,6 +68,7 @@ type tamper struct {
 	reqKey  []byte
 	proven  uint64
 	lastSet *schema.TxHeader // the genuine header of the last VerifiableSet
+	stream  bool
 }
 
 func flip(b []byte) []byte {
@@ -184,12 +187,34 @@ func (t *tamper) alterVTx(vtx *schema.VerifiableTx, ehC func(ver int32) []byte) 
 	}
 }
 
+// swapKey: the key whose honest answer is given instead of the requested one
+func (t *tamper) swapKey(k []byte) []byte {
+	if string(k) == "r1" {
+		return []byte("r2")
+	}
+	return []byte("k2")
+}
+
 func (t *tamper) VerifiableGet(ctx context.Context, in *schema.VerifiableGetRequest, opts ...grpc.CallOption) (*schema.VerifiableEntry, error) {
+	if t.muts["swap"] {
+		in = proto.Clone(in).(*schema.VerifiableGetRequest)
+		in.KeyRequest.Key = t.swapKey(in.KeyRequest.Key)
+	}
 	ve, err := t.ImmuServiceClient.VerifiableGet(ctx, in, opts...)
 	if err != nil || len(t.muts) == 0 {
 		return ve, err
 	}
+	t.alterVEntry(ve)
+	return ve, nil
+}
+
+func (t *tamper) alterVEntry(ve *schema.VerifiableEntry) {
 	m := t.muts
+	if ref := ve.Entry.ReferencedBy; ref != nil {
+		t.proven = ref.Tx
+	} else {
+		t.proven = ve.Entry.Tx
+	}
 	if m["e.key"] {
 		ve.Entry.Key = []byte("kX")
 	}
@@ -230,7 +255,11 @@ func (t *tamper) VerifiableGet(ctx context.Context, in *schema.VerifiableGetRequ
 		}
 		var e *store.EntrySpec
 		if ref := ve.Entry.ReferencedBy; ref != nil {
-			e = database.EncodeReference(t.reqKey, schema.KVMetadataFromProto(ref.Metadata), ve.Entry.Key, ref.AtTx)
+			lk := t.reqKey
+			if t.stream {
+				lk = ref.Key // the streaming client encodes under the key it finds in the response
+			}
+			e = database.EncodeReference(lk, schema.KVMetadataFromProto(ref.Metadata), ve.Entry.Key, ref.AtTx)
 		} else {
 			e = database.EncodeEntrySpec(t.reqKey, schema.KVMetadataFromProto(ve.Entry.Metadata), ve.Entry.Value)
 		}
@@ -240,7 +269,47 @@ func (t *tamper) VerifiableGet(ctx context.Context, in *schema.VerifiableGetRequ
 		}
 		return root
 	})
-	return ve, nil
+}
+
+// ---- streaming variant: the tampering sits in the stream service factory (between the chunk receiver and the client)
+type tamperFactory struct {
+	stream.ServiceFactory
+	t *tamper
+}
+
+type tamperVEntryReceiver struct {
+	inner stream.VEntryStreamReceiver
+	t     *tamper
+}
+
+func (f *tamperFactory) NewVEntryStreamReceiver(mr stream.MsgReceiver) stream.VEntryStreamReceiver {
+	return &tamperVEntryReceiver{inner: f.ServiceFactory.NewVEntryStreamReceiver(mr), t: f.t}
+}
+
+func (r *tamperVEntryReceiver) Next() ([]byte, []byte, []byte, io.Reader, error) {
+	eb, vb, ib, vr, err := r.inner.Next()
+	if err != nil || len(r.t.muts) == 0 {
+		return eb, vb, ib, vr, err
+	}
+	ve, err := stream.ParseVerifiableEntry(eb, vb, ib, vr, 4096)
+	if err != nil {
+		return nil, nil, nil, nil, err
+	}
+	r.t.alterVEntry(ve)
+	val := ve.Entry.Value
+	ve.Entry.Value = nil
+	eb, _ = proto.Marshal(ve.Entry)
+	vb, _ = proto.Marshal(ve.VerifiableTx)
+	ib, _ = proto.Marshal(ve.InclusionProof)
+	return eb, vb, ib, bytes.NewReader(val), nil
+}
+
+func (t *tamper) StreamVerifiableGet(ctx context.Context, in *schema.VerifiableGetRequest, opts ...grpc.CallOption) (schema.ImmuService_StreamVerifiableGetClient, error) {
+	if t.muts["swap"] {
+		in = proto.Clone(in).(*schema.VerifiableGetRequest)
+		in.KeyRequest.Key = t.swapKey(in.KeyRequest.Key)
+	}
+	return t.ImmuServiceClient.StreamVerifiableGet(ctx, in, opts...)
 }
 
 func (t *tamper) VerifiableTxById(ctx context.Context, in *schema.VerifiableTxRequest, opts ...grpc.CallOption) (*schema.VerifiableTx, error) {
@@ -321,15 +390,17 @@ func main() {
 		{{Key: k1, Value: []byte("v3")}, {Key: k2, Value: []byte("w3")}},
 		{{Key: []byte("k5"), Value: []byte("c")}},
 		{{Key: []byte("k6"), Value: []byte("d")}},
-		nil, // tx 6: the reference
-		{{Key: []byte("k7"), Value: []byte("e")}},
+		nil, // tx 6: the reference r1 -> k1
+		nil, // tx 7: the reference r2 -> k2
 		{{Key: []byte("k8"), Value: []byte("f")}},
 	}
 	for i, kvs := range sets {
 		var h *schema.TxHeader
 		var err error
-		if kvs == nil {
+		if kvs == nil && i == 5 {
 			h, err = cl.SetReference(ctx, r1, k1)
+		} else if kvs == nil {
+			h, err = cl.SetReference(ctx, []byte("r2"), k2)
 		} else {
 			h, err = cl.SetAll(ctx, &schema.SetRequest{KVs: kvs})
 		}
@@ -365,9 +436,10 @@ func main() {
 	tm := &tamper{ImmuServiceClient: inner}
 	cl.WithStateService(ms)
 	cl.WithServiceClient(tm)
+	cl.WithStreamServiceFactory(&tamperFactory{ServiceFactory: stream.NewStreamServiceFactory(4096), t: tm})
 	dbname := "defaultdb"
 
-	provenOf := map[string]uint64{"get0": 3, "getAt": 3, "txbyid": 3, "getRef": 6}
+	provenOf := map[string]uint64{"get0": 3, "getAt": 3, "txbyid": 3, "getRef": 6, "sget0": 3, "sgetRef": 6}
 	seen := map[string]bool{}
 	nset := 0
 	for _, c := range cf.Cases {
@@ -396,9 +468,10 @@ func main() {
 			tm.muts[m] = true
 		}
 		tm.proven, tm.reqKey, tm.lastSet = P, k1, nil
-		if c.Op == "getRef" {
+		if c.Op == "getRef" || c.Op == "sgetRef" {
 			tm.reqKey = r1
 		}
+		tm.stream = c.Op == "sget0" || c.Op == "sgetRef"
 		var retEntry *schema.Entry
 		var retTx *schema.Tx
 		var retHdr *schema.TxHeader
@@ -411,6 +484,10 @@ func main() {
 				retEntry, err = cl.VerifiedGetAt(ctx, k1, P)
 			case "getRef":
 				retEntry, err = cl.VerifiedGet(ctx, r1)
+			case "sget0":
+				retEntry, err = cl.StreamVerifiedGet(ctx, &schema.VerifiableGetRequest{KeyRequest: &schema.KeyRequest{Key: k1}, ProveSinceTx: T})
+			case "sgetRef":
+				retEntry, err = cl.StreamVerifiedGet(ctx, &schema.VerifiableGetRequest{KeyRequest: &schema.KeyRequest{Key: r1}, ProveSinceTx: T})
 			case "txbyid":
 				retTx, err = cl.VerifiedTxByID(ctx, P)
 			case "set":
@@ -443,7 +520,7 @@ func main() {
 		accepted := err == nil
 		st := ms.st
 		replay := map[string]interface{}{"op": c.Op, "rel": c.Rel, "trusted_tx": T, "proven_tx": P, "alterations": c.Muts,
-			"how": "harness/cmd/c01c: bufconn server, history of 8 txs (tx 3 = {k1,k2}, tx 6 = reference r1->k1), client state set to the trusted tx, response altered between server and client"}
+			"how": "harness/cmd/c01c: bufconn server, history of 8 txs (tx 3 = {k1,k2}, tx 6 = reference r1->k1, tx 7 = reference r2->k2; swap = the honest answer for k2 / r2), client state set to the trusted tx, response altered between server and client"}
 		if len(c.Muts) == 0 && !accepted {
 			res.Violate("client:"+c.Op+":honest-response-rejected", fmt.Sprintf("%s(%s): honest response rejected: %v", c.Op, c.Rel, err), replay)
 			continue
@@ -505,9 +582,9 @@ func main() {
 			}
 		}
 		switch c.Op {
-		case "get0", "getAt":
+		case "get0", "getAt", "sget0":
 			cmpEntry(honestEntry)
-		case "getRef":
+		case "getRef", "sgetRef":
 			cmpEntry(honestRef)
 		case "txbyid":
 			if !proto.Equal(retTx.Header, honestTx.Header) {
